@@ -46,11 +46,56 @@ def pad_file(data, p):
     return data[:k + 1] + b' ' * (p - 1) + b'\n' + data[k + 1:], []
 
 
+def pad_header(data, h, total):
+    """Pad the h-th header line (0-based; headers located at line starts - only used for files whose
+    content cannot look like a header) with an unknown option so that its text becomes `total` bytes."""
+    import re
+    # walk the file structurally: header line, then `length` bytes of content (UTF-16 content ends in
+    # LF NUL, so headers do not always start right after a 0x0A byte)
+    spans = []
+    pos = 0
+    while pos < len(data):
+        k = data.find(b'\n', pos)
+        if k < 0:
+            break
+        raw = data[pos:k]
+        if not raw.strip():
+            pos = k + 1
+            continue
+        line = raw[:-1] if raw.endswith(b'\r') else raw
+        if not line.startswith(b'#'):
+            return None
+        spans.append((pos, pos + len(line)))
+        m = re.search(rb'length=(\d+)', line)
+        pos = k + 1 + (int(m.group(1)) if m else 0)
+    if h >= len(spans):
+        return None
+    a, b = spans[h]
+    line = data[a:b]
+
+    class _M(object):
+        def end(self):
+            return b
+    m = _M()
+    need = total - len(line)
+    sep = b', ' if b'=' in line else b' '
+    if need < len(sep) + 5:
+        return None
+    v = b'x' * (need - len(sep) - 4)
+    return (data[:m.end()] + sep + b'pad=' + v + data[m.end():], [{'sec': h + 1, 'k': list(b'pad'), 'v': list(v)}])
+
+
 def _work(args):
     data, pads, sizes = args
     out = []
     for p in pads:
-        padded, ins = pad_file(data, p)
+        if isinstance(p, tuple):
+            r = pad_header(data, p[0], p[1])
+            if r is None:
+                continue
+            padded, ins = r
+        else:
+            padded, ins = pad_file(data, p)
         results = {}
         for bs in sizes:
             res = rdriver.read_bytes(padded, reader_factory=_factory(bs))
@@ -72,9 +117,14 @@ def run(run, replay=None):
     files = []
     paths = [p for p in _rcommon.legal_paths(run, 7) if len(p) >= 4]
     while len(files) < (5 if quick else 24):
-        data, _i = fgen.build_file(rng.choice(paths), rng)
+        style = fgen.Style(rng)
+        if len(files) % 2 == 0:
+            style.hdr_nl = b'\r\n'           # every other file has CRLF header lines
+        data, _i = fgen.build_file(rng.choice(paths), rng, style=style, texts=['plain text\n', 'two\nlines', 'é'],
+                                   diffs=[b'--- a\n+++ b\n', b'x\r\ny\r\n'])
         if len(data) < 900 and rdriver.read_bytes(data)[1] == 'done':
             files.append(data)
+    nsafe = len(files)
     ws = wgen.walks(run, rng, 5 if quick else 24, 8, 0, nenc=4)
     for b in ws:
         _tr, data, _i = run_writer(0, rng.choice(['utf-8', 'utf-16']), wgen.conc(b, rng), Catalog(),
@@ -89,6 +139,9 @@ def run(run, replay=None):
     pads = list(range(0, 100 if quick else 193))
     sizes = [1, 2, 3, 7, 16, 95, 96, 97, 192, 10 ** 6] if quick else list(range(1, 194)) + [10 ** 6]
     jobs = [(data, pads[k::4], sizes) for data in files for k in range(4)]
+    # later headers brought to every length around the block size (only files whose content has no '#')
+    later = [(h, total) for h in (1, 2, 3, 4) for total in (list(range(90, 101)) if quick else list(range(60, 200)))]
+    jobs += [(data, later[k::2], sizes) for data in files[:nsafe] for k in range(2)]
     with ProcessPoolExecutor(max_workers=16) as ex:
         outs = list(ex.map(_work, jobs))
     cases = []
@@ -109,7 +162,7 @@ def run(run, replay=None):
                 c['padding'] = p
                 cases.append(c)
                 cid += 1
-            run.count((data[:50], p), nontrivial=p > 0)
+            run.count((data[:50], p), nontrivial=p != 0)
     run.sample({'file_bytes': len(files[0]), 'paddings': '0..%d' % pads[-1], 'block_sizes': sizes if quick else '1..193, 10^6',
                 'head': files[0][:80].decode('latin-1')})
     run.sample({'long_header_file_bytes': len(long_hdr)})
